@@ -17,10 +17,14 @@ import (
 	"encoding/json"
 	"fmt"
 	"os"
+	"os/exec"
+	"path/filepath"
 	"runtime"
 	"runtime/debug"
 	"sort"
+	"strconv"
 	"strings"
+	"sync"
 	"testing"
 	"testing/synctest"
 	"time"
@@ -129,10 +133,10 @@ func poolState(p *pool) (string, error) {
 // scheduled like operations. Every such execution is one sequential order of (operations,
 // clock advance, expiry callback); all of them are enumerated.
 type seqOutcome struct {
-	order   []string // op keys in execution order
-	advAt   []int    // number of ops executed before each clock advance
-	rets    map[string]string
-	final   string
+	order []string // op keys in execution order
+	advAt []int    // number of ops executed before each clock advance
+	rets  map[string]string
+	final string
 }
 
 func flatten(sc vScenario) (ops []vOp, first []int) {
@@ -400,66 +404,144 @@ func poolScenarios(tier string) []vScenario {
 	return sc
 }
 
-func poolSC(t *testing.T, rep *vx.Report, deadline time.Time) bool {
-	exhaustive := true
+type poolSCViolation struct {
+	Sig    string `json:"sig"`
+	What   string `json:"what"`
+	Replay any    `json:"replay"`
+}
+
+type poolSCResult struct {
+	Completed  int               `json:"completed"`
+	Executions int64             `json:"executions"`
+	Points     int64             `json:"points"`
+	Outcomes   int               `json:"outcomes"`
+	SeqOrders  int               `json:"seq_orders"`
+	Exhaustive bool              `json:"exhaustive"`
+	Violations []poolSCViolation `json:"violations"`
+	Infra      []string          `json:"infra"`
+}
+
+// poolSCExplore: the whole exploration of one scenario in this process (single P).
+func poolSCExplore(t *testing.T, sc vScenario, bounds []int, deadline time.Time) poolSCResult {
 	runtime.GOMAXPROCS(1)
-	defer runtime.GOMAXPROCS(vx.Workers())
-	bounds := []int{0, 1, 2}
-	if rep.Tier == "thorough" {
-		bounds = []int{0, 1, 2, 3}
+	res := poolSCResult{Completed: -1, Exhaustive: true}
+	seen := map[string]bool{}
+	viol := func(sig, what string, replay any) {
+		if !seen[sig] {
+			seen[sig] = true
+			res.Violations = append(res.Violations, poolSCViolation{sig, what, replay})
+		}
 	}
-	for _, sc := range poolScenarios(rep.Tier) {
-		sc := sc
-		seqs, serr := seqOutcomes(t, sc)
-		if serr != nil {
-			rep.Violation(vSigOf(serr), serr.Error(), map[string]any{"part": "pool-sc", "scenario": sc, "atomic": true})
+	seqs, serr := seqOutcomes(t, sc)
+	if serr != nil {
+		viol(vSigOf(serr), serr.Error(), map[string]any{"part": "pool-sc", "scenario": sc, "atomic": true})
+		res.Exhaustive = false
+		return res
+	}
+	res.SeqOrders = len(seqs)
+	outcomes := map[string]int64{}
+	for _, b := range bounds {
+		st := vx.DFS(vx.DFSOpts{Bound: b, Deadline: deadline}, func(e *vx.Exec) (string, error) {
+			r := runScenario(t, sc, e, false, false)
+			var rets []string
+			for _, rec := range r.recs {
+				rets = append(rets, rec.key+"="+rec.ret)
+			}
+			sort.Strings(rets)
+			outcome := strings.Join(rets, ",") + "|" + r.final
+			if r.err != nil {
+				return "ERR:" + vSigOf(r.err), r.err
+			}
+			if !linearisable(sc, r, seqs) {
+				return "NONLIN", fmt.Errorf("C17/not-linearisable/%s: results %s match no sequential order of the operations (of %d orders)", sc.Name, outcome, len(seqs))
+			}
+			return outcome, nil
+		}, func(e *vx.Exec, err error) {
+			sig := vSigOf(err)
+			if strings.HasPrefix(sig, "harness") {
+				res.Infra = append(res.Infra, fmt.Sprintf("%v scenario=%s choices=%v", err, sc.Name, e.Choices))
+				return
+			}
+			viol(sig, err.Error(), map[string]any{"part": "pool-sc", "scenario": sc, "choices": e.Choices, "trace": e.Trace()})
+		})
+		res.Executions, res.Points = st.Executions, st.ChoicePoints // bound b re-explores everything below it
+		for k, v := range st.Outcomes {
+			outcomes[k] = v
+		}
+		if !st.Complete {
+			res.Exhaustive = false
+			break
+		}
+		res.Completed = b
+	}
+	res.Outcomes = len(outcomes)
+	return res
+}
+
+// poolSC runs one shard process per scenario (each with a single P and the whole budget).
+func poolSC(t *testing.T, rep *vx.Report, deadline time.Time) bool {
+	scs := poolScenarios(rep.Tier)
+	tmp := os.Getenv("VERIF_TMP")
+	if tmp == "" {
+		tmp = t.TempDir()
+	}
+	results := make([]*poolSCResult, len(scs))
+	errs := make([]string, len(scs))
+	var wg sync.WaitGroup
+	sem := make(chan struct{}, vx.Workers())
+	for i, sc := range scs {
+		wg.Add(1)
+		go func(i int, sc vScenario) {
+			defer wg.Done()
+			sem <- struct{}{}
+			defer func() { <-sem }()
+			out := filepath.Join(tmp, fmt.Sprintf("c17-shard-%d.json", i))
+			cmd := exec.Command(os.Args[0], "-test.run=^TestVerifC17$", "-test.count=1", "-test.timeout=0")
+			cmd.Env = append(os.Environ(), "VERIF_C17_SCENARIO="+sc.Name, "VERIF_C17_OUT="+out,
+				fmt.Sprintf("VERIF_C17_DEADLINE_MS=%d", deadline.UnixMilli()), "VERIF_EVIDENCE=", "GOMAXPROCS=1")
+			ob, err := cmd.CombinedOutput()
+			if err != nil {
+				tail := string(ob)
+				if len(tail) > 1200 {
+					tail = tail[len(tail)-1200:]
+				}
+				errs[i] = fmt.Sprintf("shard %s: %v: %s", sc.Name, err, tail)
+				return
+			}
+			b, err := os.ReadFile(out)
+			var r poolSCResult
+			if err == nil {
+				err = json.Unmarshal(b, &r)
+			}
+			if err != nil {
+				errs[i] = fmt.Sprintf("shard %s: %v", sc.Name, err)
+				return
+			}
+			results[i] = &r
+		}(i, sc)
+	}
+	wg.Wait()
+	exhaustive := true
+	for i, sc := range scs {
+		if errs[i] != "" {
+			rep.Infra(errs[i])
+			exhaustive = false
 			continue
 		}
-		completed := -1
-		var total, points int64
-		outcomes := map[string]int64{}
-		nonlin := 0
-		for _, b := range bounds {
-			st := vx.DFS(vx.DFSOpts{Bound: b, Deadline: deadline}, func(e *vx.Exec) (string, error) {
-				r := runScenario(t, sc, e, false, false)
-				var rets []string
-				for _, rec := range r.recs {
-					rets = append(rets, rec.key+"="+rec.ret)
-				}
-				sort.Strings(rets)
-				outcome := strings.Join(rets, ",") + "|" + r.final
-				if r.err != nil {
-					return "ERR:" + vSigOf(r.err), r.err
-				}
-				if !linearisable(sc, r, seqs) {
-					return "NONLIN", fmt.Errorf("C17/not-linearisable/%s: results %s match no sequential order of the operations (of %d orders)", sc.Name, outcome, len(seqs))
-				}
-				return outcome, nil
-			}, func(e *vx.Exec, err error) {
-				sig := vSigOf(err)
-				if strings.HasPrefix(sig, "harness") {
-					rep.Infra(fmt.Sprintf("%v scenario=%s choices=%v", err, sc.Name, e.Choices))
-					return
-				}
-				nonlin++
-				rep.Violation(sig, err.Error(), map[string]any{"part": "pool-sc", "scenario": sc, "choices": e.Choices, "trace": e.Trace()})
-			})
-			total = st.Executions // bound b re-explores everything below it
-			for k, v := range st.Outcomes {
-				outcomes[k] = v
-			}
-			if !st.Complete {
-				exhaustive = false
-				break
-			}
-			completed = b
+		r := results[i]
+		for _, inf := range r.Infra {
+			rep.Infra(inf)
 		}
+		for _, v := range r.Violations {
+			rep.Violation(v.Sig, v.What, v.Replay)
+		}
+		exhaustive = exhaustive && r.Exhaustive
 		// stateless search: states = distinct terminal outcomes, transitions = scheduling decisions taken
-		rep.Count(total, int64(len(outcomes)), int64(len(outcomes)), points)
+		rep.Count(r.Executions, int64(r.Outcomes), int64(r.Outcomes), r.Points)
 		rep.Set("pool_sc_"+sc.Name, map[string]any{
 			"threads": sc.Threads, "init": sc.Init, "advance": sc.Advance,
-			"preemption_bound_completed": completed, "executions_at_last_bound": total,
-			"distinct_outcomes": len(outcomes), "sequential_reference_orders": len(seqs),
+			"preemption_bound_completed": r.Completed, "executions_at_last_bound": r.Executions,
+			"distinct_outcomes": r.Outcomes, "sequential_reference_orders": r.SeqOrders, "scheduling_decisions": r.Points,
 		})
 	}
 	return exhaustive
@@ -541,6 +623,24 @@ func TestVerifC17(t *testing.T) {
 			replayOther(t, rep, part.Part, doc.Replay)
 		}
 		rep.Finish()
+		return
+	}
+	// shard process of part A: one scenario, result to a file, nothing else
+	if name := os.Getenv("VERIF_C17_SCENARIO"); name != "" {
+		bounds := []int{0, 1, 2}
+		if rep.Tier == "thorough" {
+			bounds = []int{0, 1, 2, 3}
+		}
+		for _, sc := range poolScenarios(rep.Tier) {
+			if sc.Name == name {
+				dl, _ := strconv.ParseInt(os.Getenv("VERIF_C17_DEADLINE_MS"), 10, 64)
+				res := poolSCExplore(t, sc, bounds, time.UnixMilli(dl))
+				b, _ := json.Marshal(res)
+				if err := os.WriteFile(os.Getenv("VERIF_C17_OUT"), b, 0o644); err != nil {
+					t.Fatal(err)
+				}
+			}
+		}
 		return
 	}
 	deadline := rep.Deadline(80*time.Second, 18*time.Minute)
